@@ -129,7 +129,7 @@ func runC16(ctx *core.Ctx, unit int) {
 	case unit < nt:
 		sc := c16ThreadScenarios[unit/c16Shards]
 		threads, bound := 2, 3
-		if ctx.Thorough() && !strings.Contains(sc, "+vendored") && sc != "unshared+caching" {
+		if ctx.Thorough() && !strings.Contains(sc, "+vendored") && sc != "unshared+caching" && sc != "helpers" {
 			// three threads for the four base scenarios; the vendored variants repeat two of them with other
 			// files, and the caching scenario's threads touch only their own caches (a third thread multiplies
 			// interleavings of independent events without adding a conflict): those stay at two threads
